@@ -55,6 +55,8 @@ type c14Prog struct {
 	// ReseedIn > 0: the process-wide entropy source is positioned this many
 	// draws before its periodic re-seeding
 	ReseedIn int
+	// ClientNoFEC: FEC is configured at the listener only
+	ClientNoFEC bool
 }
 
 // c14Sock is a socket the program can make fail.
@@ -215,11 +217,17 @@ func c14Run(p c14Prog, pc *pairCounter) (calls int64) {
 		} else {
 			pc = c.(c14SimSock).PConn
 		}
-		s, _ := kcp.NewConn3(uint32(1000+i), laddr, blk(), p.FEC[0], p.FEC[1], pc)
+		fecC := p.FEC
+		if p.ClientNoFEC {
+			fecC = [2]int{} // FEC at the listener only: the clients create their decoders when its first packets arrive
+		}
+		s, _ := kcp.NewConn3(uint32(1000+i), laddr, blk(), fecC[0], fecC[1], pc)
 		// deprecated switches only before traffic (the property excludes them)
 		s.SetStreamMode(i%2 == 0)
 		s.SetNoDelay(1, 10, 2, 1)
-		s.Write([]byte("hello"))
+		if !p.ClientNoFEC {
+			s.Write([]byte("hello")) // otherwise the first packets travel while the methods are being called
+		}
 		sessions = append(sessions, s)
 		conns = append(conns, c)
 	}
@@ -423,6 +431,7 @@ func TestC14Race(t *testing.T) {
 		if rng.IntN(3) == 0 {
 			p.ReseedIn = 1 + rng.IntN(400)
 		}
+		p.ClientNoFEC = p.FEC[0] > 0 && rng.IntN(4) == 0
 		pc.mu.Lock()
 		before := pc.hits
 		pc.mu.Unlock()
@@ -434,7 +443,7 @@ func TestC14Race(t *testing.T) {
 		pc.mu.Unlock()
 		rec.Case(hx.Hash64(p), co > 0, "cipher_"+p.Cipher, fmt.Sprintf("fec_%v", p.FEC[0] > 0),
 			fmt.Sprintf("listener_socket_fails_during_calls_%v", p.FailListenerAt > 0), fmt.Sprintf("client_socket_fails_during_calls_%v", p.FailClientAt > 0),
-			fmt.Sprintf("close_fault_%d", p.CloseFault), fmt.Sprintf("real_udp_sockets_%v", p.RealUDP), fmt.Sprintf("close_while_methods_are_being_called_%v", p.CloseAt > 0), fmt.Sprintf("entropy_reseed_during_the_program_%v", p.ReseedIn > 0))
+			fmt.Sprintf("close_fault_%d", p.CloseFault), fmt.Sprintf("real_udp_sockets_%v", p.RealUDP), fmt.Sprintf("close_while_methods_are_being_called_%v", p.CloseAt > 0), fmt.Sprintf("entropy_reseed_during_the_program_%v", p.ReseedIn > 0), fmt.Sprintf("fec_at_the_listener_only_%v", p.ClientNoFEC))
 		if rec.WantSample() {
 			rec.Sample(p)
 		}
